@@ -56,7 +56,7 @@ def gen_value(vr, rng, uid_len=None):
     raise ValueError(vr)
 
 
-def scenario(cls, rng, n_ops, uid_len=None):
+def scenario(cls, rng, n_ops, uid_len=None, forced=None):
     """Apply a random op sequence to a real message; return the Coq case."""
     info = [f for f in field_info(cls) if f[1] not in (0, 0x0100, 0x0800)]
     msg = cls()
@@ -65,8 +65,34 @@ def scenario(cls, rng, n_ops, uid_len=None):
     human = []
     sent_gens = []
     ops = []
-    for _ in range(n_ops):
+    relayed = False
+    for step in range(n_ops):
         r = rng.random()
+        kind_forced = forced[step] if forced else None
+        if kind_forced in ('at', 'inplace'):
+            # a multi-valued element (Attribute Identifier List of N-GET, Offending Element) is assigned, and then - between
+            # two sends of the same object, with NOTHING else changed - changed in place (append / pop on the live value)
+            ats = [f for f in info if f[2] == 'AT'] or [x for x in EXTRA_ELEMENTS if x[2] == 'AT']
+            kw, e, vr = ats[0]
+            pool = [(0x0010, 0x0010), (0x0010, 0x0020), (0x0008, 0x0018), (0x0020, 0x000d), (0x0008, 0x0050)]
+            cur = getattr(msg.command_set, kw, None)
+            if kind_forced == 'at' or not hasattr(cur, 'append'):
+                tags = pool[:rng.randint(2, 3)]
+                setattr(msg.command_set, kw, [g << 16 | el for g, el in tags])
+            else:
+                if len(cur) >= 3 and rng.random() < 0.5:
+                    cur.pop()
+                    if rng.random() < 0.5:
+                        cur.pop()
+                else:
+                    g, el = pool[len(cur) % len(pool)]
+                    cur.append(g << 16 | el)
+                tags = [(int(v) >> 16, int(v) & 0xFFFF) for v in cur]
+            ops_terms.append('(SetField %d (VAT %s))' % (e, clist(['(%d, %d)' % t for t in tags])))
+            human.append('%s %s=%r' % ('set' if kind_forced == 'at' else 'changed in place:', kw, tags))
+            continue
+        if kind_forced == 'send':
+            r = 0.99
         if r < 0.5 and info:
             kw, e, vr = rng.choice(info)
             if rng.random() < 0.15:
@@ -102,7 +128,10 @@ def scenario(cls, rng, n_ops, uid_len=None):
             ops_terms.append('(SetData %s)' % cbool(kind in ('bytes', 'file')))
             human.append('data_set=%s' % kind)
         else:
-            if rng.random() < 0.2 and (msg.data_set is None or isinstance(msg.data_set, (bytes, bytearray))):
+            if rng.random() < 0.2 and not relayed and (msg.data_set is None or isinstance(msg.data_set, (bytes, bytearray))):
+                # (once per scenario: reading the fields of a received object - as the loop below does - makes pydicom
+                # normalise the raw values, which the model does not follow)
+                relayed = True
                 # relay: the message travels, is received (command set decoded from its bytes, values as the peer
                 # wrote them) and the RECEIVED object is what gets sent on
                 from pynetdicom2 import dsutils
@@ -170,6 +199,8 @@ def main(tier, seed):
         for _ in range(10 if tier == 'quick' else 80):
             cases.append(scenario(cls, rng, rng.randint(3, 14)))
         cases.append(scenario(cls, rng, 0))
+        for _ in range(2 if tier == 'quick' else 6):
+            cases.append(scenario(cls, rng, 8, forced=['at', 'send', 'inplace', 'send', 'inplace', 'send', 'inplace', 'send']))
     terms = [t for t, _h in cases]
     run = common.CoqRun('C08')
     failing, broken, n_obl, n_ok = common.run_sharded(run, 'Cmd', IMPORTS, 'ccase', terms,
